@@ -8,6 +8,7 @@ import (
 	"fmt"
 	"os"
 	"runtime"
+	"sync"
 
 	"grits/parser"
 	"grits/process"
@@ -18,6 +19,7 @@ func main() {
 	monitor := flag.Bool("monitor", false, "attach a monitor")
 	procs := flag.Int("procs", 0, "GOMAXPROCS")
 	repeat := flag.Int("repeat", 1, "number of runs in this process")
+	with := flag.String("with", "", "second program file: run both programs concurrently in this process")
 	flag.Parse()
 	if *procs > 0 {
 		runtime.GOMAXPROCS(*procs)
@@ -26,6 +28,52 @@ func main() {
 	if err != nil {
 		fmt.Println("READ-ERROR", err)
 		os.Exit(3)
+	}
+	if *with != "" {
+		// two drivers in one process, each parsing, typechecking and executing its own program at the
+		// same time (what the web server does with two requests)
+		text2, err := os.ReadFile(*with)
+		if err != nil {
+			fmt.Println("READ-ERROR", err)
+			os.Exit(3)
+		}
+		var wg sync.WaitGroup
+		bad := make([]bool, 2)
+		for k, t := range []string{string(text), string(text2)} {
+			wg.Add(1)
+			go func(k int, t string) {
+				defer wg.Done()
+				for i := 0; i < *repeat; i++ {
+					ps, assumed, env, err := parser.ParseString(t)
+					if err != nil {
+						bad[k] = true
+						return
+					}
+					env.LogLevels = []process.LogLevel{}
+					if err := process.Typecheck(ps, assumed, env); err != nil {
+						bad[k] = true
+						return
+					}
+					ev := []process.Execution_Version{process.NORMAL_ASYNC, process.NORMAL_SYNC, process.NON_POLARIZED_SYNC}[*mode]
+					re := &process.RuntimeEnvironment{GlobalEnvironment: env, ExecutionVersion: ev, Typechecked: true, UseMonitor: *monitor, Color: false, Quiet: true}
+					process.InitializeProcesses(ps, nil, nil, re)
+					_ = re.ProcessCount()
+					_ = re.DeadProcessCount()
+					_ = re.TimeTaken()
+					if *monitor {
+						dead, log := re.StopMonitor()
+						_ = len(dead) + len(log)
+					}
+				}
+			}(k, t)
+		}
+		wg.Wait()
+		if bad[0] || bad[1] {
+			fmt.Println("NOT-ACCEPTED concurrent", bad)
+			return
+		}
+		fmt.Println("DONE")
+		return
 	}
 	for i := 0; i < *repeat; i++ {
 		ps, assumed, env, err := parser.ParseString(string(text))
